@@ -37,6 +37,10 @@ type iterator struct {
 	closer io.Closer
 
 	iteratorOptions IteratorOptions
+
+	// numSources is the number of cursors the iterator started with,
+	// before any leading deletion was skipped.
+	numSources int
 }
 
 // A cursor rerpresents a logical entry position inside a segment in a
@@ -189,6 +193,8 @@ func (ss *segmentStack) startIterator(
 
 	// ----------------------------------------------
 	// Heap-ify the cursors.
+
+	iter.numSources = len(iter.cursors)
 
 	heap.Init(iter)
 
@@ -453,7 +459,10 @@ func (iter *iterator) Pop() interface{} {
 // when there's only a single segment, then the heap can be avoided by
 // using a simpler, faster iteratorSingle implementation.
 func (iter *iterator) optimize() (Iterator, error) {
-	if len(iter.cursors) != 1 {
+	// Only when a single segment (or only the lower level) has entries
+	// in the range at all: a source that was used up while skipping a
+	// leading deletion still shadows entries on a backwards SeekTo().
+	if len(iter.cursors) != 1 || iter.numSources != 1 {
 		return iter, nil
 	}
 
